@@ -8,11 +8,15 @@ PROP = dict(
                    "defining a leaf path wins provided no document holds a map at that very path (the full statement is false of the "
                    "code because viper.MergeConfig keeps an earlier map over a later scalar: C15_counterexample, known finding KF-C15-1); "
                    "the loader sequence is a permutation: priority loaders by Order(), ordered loaders by Order(), the rest in "
-                   "insertion order; add-type options never discard a configured loader. The model (viper's merge rule, the "
+                   "insertion order, for every number of loaders, and this sequence is the only arrangement meeting that description when no two "
+                   "loaders of one class share an Order() (C15_sequence_determined: independent of the sorting algorithm); "
+                   "add-type options never discard a configured loader. The model (viper's merge rule, the "
                    "SortOrderedComponents partition, the option fold, the loadConfigure loop) is tied to real app.NewApp().Run(...) + "
                    "App.Get on generated source sets every run.",
         level_note="Modelled, not verified: spf13/viper MergeConfig/mergeMaps/insensitiviseMap/Get/AllSettings, yaml.v3, "
-                   "go-kid/properties and strconv2 (ArgsLoader), sort.Slice on fewer than 13 loaders (insertion sort, stable).",
+                   "go-kid/properties and strconv2 (ArgsLoader), sort.Slice on a class of fewer than 13 loaders (insertion sort, stable); "
+                   "for larger classes only that sort.Slice returns an ascending permutation (then the result is the model's when the "
+                   "Order() values differ pairwise).",
         subs=[dict(sub="config", n_quick=1500, n_thorough=60000)],
         thorough_seeds=1,
         rule="source sets: 1-5 loaders of kinds raw / file (temp files) / command-line arguments (--app.config=k=v given to "
@@ -21,15 +25,23 @@ PROP = dict(
              "keep the default ArgsLoader); key trees of depth <= 3 over six names in three spellings (forced overlaps), per-loader "
              "marker keys (disjoint), lists, nulls, empty maps, lower/UPPER duplicates inside one map, map/scalar conflicts forced "
              "in 1 of 8 cases, empty and failing loaders; queried: every path of every document in mixed case, absent paths and the "
-             "empty path; 2 in 9 cases repeat a document (same bytes / same loader object / same file path) around a different overlapping one (X,Y,X); a case is non-trivial when it has at least two loaders; distinct = distinct scenario lines",
+             "empty path; 2 in 9 cases repeat a document (same bytes / same loader object / same file path) around a different overlapping one (X,Y,X); a case is non-trivial when it has at least two loaders; distinct = distinct scenario lines; "
+             "every 25th case (tag many-loaders; 60 in quick, 2400 in thorough) and three corpus lines hold 12-40 loaders (13 and more with "
+             "the default ArgsLoader) of mixed classes, priority/ordered/file loaders also added after none-ordered ones, no set option after "
+             "the first option, forced overlaps (loader #i defines s<i> and s<i+1>, at the top level or below one map, most define the "
+             "common key z, each with its own value) next to the random trees and markers; a priority or ordered class of 13+ members has "
+             "pairwise different orders in -n..n, smaller classes draw from {-2..3} with ties",
         trusted_base=COMMON_TB + ["spf13/viper v1.19.0 merge, key lower-casing, Get and AllSettings as modelled in Ioc.Config (validated by the correspondence)",
                                   "yaml.v3 parsing of the generated documents; go-kid/properties + strconv2 for ArgsLoader values",
-                                  "Go's sort.Slice is an insertion sort (stable) below 13 elements, as modelled by sortByKey"],
+                                  "Go's sort.Slice is an insertion sort (stable) below 13 elements, as modelled by sortByKey; on 13 and more elements it returns an "
+                                  "ascending permutation (unique, = sortByKey, when the keys differ pairwise: sortByKey_unique)"],
         assumptions=["documents are YAML mappings with ASCII keys that contain no '.' and are not numeric (list indexing through Get is not modelled)",
                      "one map never spells the same key in two different non-lower-case ways (viper's result would then depend on Go's map iteration order); "
                      "lower-case + one other spelling is modelled (the other spelling wins) and generated",
                      "scalar values are compared by their fmt %v text; the generator uses values whose YAML text and %v text coincide (small ints, 1.5, booleans, words, quoted strings)",
                      "within one ArgsLoader a path never extends an earlier scalar (go-kid/properties panics; modelled as `panic`, one corpus case)",
-                     "at most 12 loaders per class (sort.Slice stays an insertion sort); the harness process is started without --app.config arguments, so the default ArgsLoader is empty",
+                     "a priority or ordered class with 13 or more loaders holds no two equal Order() values (sort.Slice stays an insertion sort up to 12; "
+                     "beyond that ties are placed by pdqsort, which is not modelled and on which the property is silent); the none-ordered class "
+                     "may have any size; the harness process is started without --app.config arguments, so the default ArgsLoader is empty",
                      "null is a value: a later null hides an earlier value (viper.Get returns nil), counted as 'last wins'"],
     )
